@@ -106,6 +106,13 @@ Proof. exact register_column_order_irrelevant. Qed.
 Theorem C04_key_column_order_irrelevant : forall size k k' salt10, Permutation k k' -> hash size k salt10 = hash size k' salt10.
 Proof. exact hash_perm. Qed.
 
+(* A datetime key column counts by its INSTANT, clipped to whole seconds: [KDate] carries nanoseconds since the epoch
+   whatever unit the column is stored in (the code converts to ns first - commit 11362e66, finding F-AJ), so the
+   storage unit cannot matter - by construction of the model's input; the correspondence feeds real maps the same
+   instants in s / ms / us / ns and expects equal positions.  What does matter is the second the instant falls in. *)
+Theorem C04_datetime_by_second : forall a b, a / 10 ^ 9 = b / 10 ^ 9 -> conv10 (KDate a) = conv10 (KDate b).
+Proof. intros a b H. exact H. Qed.
+
 (* The simulant attached to a key is the one that supplied it: the simulant index is joined back on the key
    levels, never positionally.  (A map that is injective but mis-aligned violates exactly this.) *)
 Theorem C04_join_by_key : forall size crn m b t fuel m', Inj m -> update size crn m b t fuel = Ok m' ->
@@ -157,5 +164,6 @@ Print Assumptions C04_labels_irrelevant_history.
 Print Assumptions C04_only_key_columns_matter.
 Print Assumptions C04_column_order_irrelevant.
 Print Assumptions C04_key_column_order_irrelevant.
+Print Assumptions C04_datetime_by_second.
 Print Assumptions C04_join_by_key.
 Print Assumptions C04_join_by_key_history.
